@@ -246,9 +246,18 @@ func HarnessC06GRPCStatus() {
 	web := variant >= 2
 	inHeaders := variant%2 == 1
 	st := http.Header{}
-	gs := nondetString("grpcStatus", bound("grpcStatus", 2, 3))
-	for i := 0; i < len(gs); i++ {
-		assume(gs[i] > 0x20 && gs[i] <= 0x7e && gs[i] != ':')
+	var gs string
+	if nondetBool("longDigits") {
+		// long digit strings: values beyond 32 and 64 bits
+		gs = nondetString("grpcStatusDigits", bound("grpcStatusDigits", 11, 21))
+		for i := 0; i < len(gs); i++ {
+			assume(gs[i] >= '0' && gs[i] <= '9')
+		}
+	} else {
+		gs = nondetString("grpcStatus", bound("grpcStatus", 2, 3))
+		for i := 0; i < len(gs); i++ {
+			assume(gs[i] > 0x20 && gs[i] <= 0x7e && gs[i] != ':')
+		}
 	}
 	if gs != "" {
 		st["Grpc-Status"] = []string{gs}
